@@ -38,6 +38,8 @@ type inode struct {
 	data  map[int64]byte // non-zero bytes only
 	dsize int64          // durable size
 	ddata map[int64]byte // durable bytes
+	ver   uint64         // bumped by every change of the volatile contents (SyncSnapshot mode)
+	dver  uint64         // version of the contents that are durable (SyncSnapshot mode)
 	// dir
 	children map[string]*inode
 	// symlink
@@ -77,6 +79,14 @@ type FS struct {
 	Gate func(op, p string)
 	// CrashHook, when non-nil, is called after every mutating operation with the call (crash points).
 	AfterOp func(c Call)
+	// SyncSnapshot (off by default: Sync then persists what the file holds when Sync completes, under one lock)
+	// makes Sync behave like an fsync that takes time: it persists the contents the file had when Sync was
+	// ENTERED - an fsync only promises what was written before it was called.  The snapshot is taken under the
+	// lock, then Gate / Fault / MidSync run without the lock (the "disk" is busy, other calls proceed), then the
+	// snapshot becomes the durable contents unless a newer one already is.
+	SyncSnapshot bool
+	// MidSync, when non-nil, is called without the lock between the snapshot and its installation (SyncSnapshot mode).
+	MidSync func(p string)
 }
 
 func New() *FS {
@@ -472,6 +482,7 @@ func (f *FS) Chtimes(p string, atime, mtime time.Time) error {
 }
 
 func truncateInode(n *inode, size int64) {
+	n.ver++
 	for off := range n.data {
 		if off >= size {
 			delete(n.data, off)
@@ -671,6 +682,7 @@ func (h *file) WriteAt(b []byte, off int64) (int, error) {
 		if len(b) > 0 && off+int64(len(b)) > h.n.size {
 			h.n.size = off + int64(len(b))
 		}
+		h.n.ver++
 		h.n.mtime = h.fs.Clock()
 	}
 	h.fs.rec(c, err)
@@ -679,7 +691,37 @@ func (h *file) WriteAt(b []byte, off int64) (int, error) {
 	}
 	return len(b), nil
 }
+// syncSnapshot is Sync in SyncSnapshot mode.
+func (h *file) syncSnapshot() error {
+	c := Call{Op: "Sync", Path: h.name}
+	h.fs.mu.Lock()
+	isFile := h.n.kind == KFile
+	ver, size := h.n.ver, h.n.size
+	var snap map[int64]byte
+	if isFile {
+		snap = make(map[int64]byte, len(h.n.data))
+		for k, v := range h.n.data {
+			snap[k] = v
+		}
+	}
+	h.fs.mu.Unlock()
+	err := h.fs.pre("Sync", h.name)
+	if err == nil && h.fs.MidSync != nil {
+		h.fs.MidSync(h.name)
+	}
+	h.fs.mu.Lock()
+	defer h.fs.mu.Unlock()
+	if err == nil && isFile && (ver > h.n.dver || h.n.dver == 0) {
+		h.n.dsize, h.n.ddata, h.n.dver = size, snap, ver
+	}
+	h.fs.rec(c, err)
+	return err
+}
+
 func (h *file) Sync() error {
+	if h.fs.SyncSnapshot {
+		return h.syncSnapshot()
+	}
 	c := Call{Op: "Sync", Path: h.name}
 	if err := h.fs.pre("Sync", h.name); err != nil {
 		h.fs.mu.Lock()
